@@ -28,6 +28,8 @@ pub struct Outbound {
     pub bytes: Vec<u8>,
     /// simulated (paused-clock) instant of the send
     pub at: tokio::time::Instant,
+    /// position in the hub's order of sends and datagram consumptions
+    pub seq: u64,
 }
 
 #[derive(Default)]
@@ -38,6 +40,9 @@ struct Hub {
     outbox: Vec<Outbound>,
     notify: Option<std::sync::Arc<tokio::sync::Notify>>,
     consumed: Option<std::sync::Arc<tokio::sync::Notify>>,
+    /// counts sends and consumptions, in the order the tasks performed them
+    seq: u64,
+    last_consumed_seq: u64,
     /// connect_address fails while this is set (simulated "network unreachable at socket setup")
     refuse_connect: bool,
 }
@@ -80,6 +85,12 @@ pub fn hub_deliver(socket: u64, bytes: Vec<u8>) -> bool {
         Some((_, tx)) => tx.send(bytes).is_ok(),
         None => false,
     })
+}
+
+/// Sequence number of the most recent datagram consumption (0 = none yet); compare with
+/// `Outbound::seq` to order a task's sends relative to it.
+pub fn hub_last_consumed_seq() -> u64 {
+    HUB.with(|h| h.borrow().last_consumed_seq)
 }
 
 pub fn hub_refuse_connect(refuse: bool) {
@@ -151,7 +162,10 @@ impl Socket<SocketAddr, Connected> {
         match self.rx.recv().await {
             Some(bytes) => {
                 HUB.with(|h| {
-                    if let Some(n) = &h.borrow().consumed {
+                    let mut h = h.borrow_mut();
+                    h.seq += 1;
+                    h.last_consumed_seq = h.seq;
+                    if let Some(n) = &h.consumed {
                         n.notify_one();
                     }
                 });
@@ -178,11 +192,14 @@ impl Socket<SocketAddr, Connected> {
     pub async fn send(&mut self, buf: &[u8]) -> std::io::Result<TimestampData> {
         HUB.with(|h| {
             let mut h = h.borrow_mut();
+            h.seq += 1;
+            let seq = h.seq;
             h.outbox.push(Outbound {
                 socket: self.id,
                 peer: self.peer.expect("connected socket has a peer"),
                 bytes: buf.to_vec(),
                 at: tokio::time::Instant::now(),
+                seq,
             });
             if let Some(n) = &h.notify {
                 n.notify_one();
